@@ -171,8 +171,47 @@ def check_refs(run, cases, ia, ma):
     run.stats["override_reference_checks"] = n
 
 
+def handler_part(r):
+    """(fixed, over stdio) the same at the HANDLER: `textDocument/definition`, hover-free navigation requests sent to the
+    running server at every column of `def foo(foo):` lines of a three-level chain - on the parameter the answer is the
+    next definition outward, on the function name it is not (compared with the model's handler and with the chain)"""
+    from .. import stdio
+    v = r.verdict
+    c0 = "import pytest\n\n@pytest.fixture\ndef foo():\n    return 0\n"
+    c1 = "import pytest\n\n@pytest.fixture\ndef foo(foo):\n    return foo\n"
+    t = "import pytest\n\n@pytest.fixture\ndef foo(foo):\n    return foo\n\ndef test_t(foo):\n    pass\n"
+    files = {"conftest.py": c0, "a/conftest.py": c1, "a/b/test_t.py": t}
+    sc = stdio.StdioCase("chain", files)
+    for p in files:
+        sc.open(p)
+    want = {}
+    for p, outer in (("a/conftest.py", "conftest.py"), ("a/b/test_t.py", "a/conftest.py")):
+        line = files[p].split("\n")[3]            # def foo(foo):
+        for col in range(len(line) + 1):
+            sc.req("definition", p, 3, col)
+            if 8 <= col < 11:
+                want[(p, col)] = outer
+    scs = [sc]
+    res, mcases, msp = stdio.run_all(r, scs, tag="handler")
+    n = 0
+    for (sc_, i, step, a, m, k) in res:
+        if step[0] != "req":
+            continue
+        r.corr_checked += 1; n += 1
+        if not stdio.agree(a, m):
+            r.corr_bad.append((k, list(step[:5]), a, m))
+        p, col = step[2], int(step[4])
+        if (p, col) in want:
+            outer = want[(p, col)]
+            if not a.startswith(outer + ":"):
+                msg = (f"stdio case chain: textDocument/definition at {p}:3:{col} (the parameter of `def foo(foo):`) answers {a}; the parameter "
+                       f"requests the next definition outward, in {outer}")
+                v.violation(f"chain-{i}", msg, f"# {msg}\n" + mcases.replay_text("chain")); break
+    r.stats["handler_positions_probed"] = n
+
+
 def run(tier, seed):
-    r = Run(PROP, MODULE, THEOREMS, tier, seed)
+    r = Run(PROP, MODULE, THEOREMS, tier, seed, need_server=True)
     if not r.prepare():
         return r.finish(RULE)
     n = 120 if tier == "quick" else 2000
@@ -220,6 +259,7 @@ def run(tier, seed):
     r.evaluations = len(ia)
     r.correspond(cases, ia, ma)
     check_spec(r, cases, ia, ma, sp, kinds=("goto",))
+    handler_part(r)
     check_names(r, cases, ia, ma)
     check_refs(r, cases, ia, ma)
     return r.finish(RULE)
